@@ -18,7 +18,7 @@ from gv.common import HarnessError, result, viol
 PID = "C19"
 TECHNIQUE = "exhaustive enumeration of loss histories over a 3-letter alphabet (bounded length) x patience x min_delta x monitored quantity x scalar representation against a 6-line reference state machine; Hypothesis for longer float histories; real ml.train runs under a recording stop condition with a bounded-overrun safety oracle"
 RULE = (
-    "Enumerated: every loss history over the ordered alphabet {1.0,2.0,3.0} up to length 7 (quick: 6; 0-d JAX arrays up to length 5/4) x patience 0..3 x "
+    "Enumerated: every loss history over the ordered alphabet {1.0,2.0,3.0} (and, two symbols shorter, over {1.0,2.0,3.0,NaN}: a NaN loss is never an improvement) up to length 7 (quick: 6; 0-d JAX arrays up to length 5/4) x patience 0..3 x "
     "min_delta in {0,0.5,1.0} x monitored in {train,validation} x scalar representation in {python float, numpy.float32, numpy.float64, 0-d jax array}, driven the way "
     "ml.train drives a stop condition (first call at epoch 0 with None losses, a distinct sentinel object as the model of every epoch, the unmonitored loss strictly "
     "improving so that it must be ignored). Oracle: best=inf, since=0; on loss l: if l < best-delta then best=l, best_model=current, since=0 else since+=1; stop at the "
@@ -77,6 +77,10 @@ def enumerate_cases(tier):
                     L = maxlen if kind != "jax" else maxlen - 2
                     for first in range(3):
                         cases.append({"mode": "enum", "patience": patience, "delta": delta, "monitor": mon, "repr": kind, "maxlen": L, "first": first})
+                    # a diverged run: NaN joins the alphabet (a NaN loss never counts as an improvement), shorter histories
+                    if delta == 0.0 or patience == 1:
+                        for first in range(4):
+                            cases.append({"mode": "enum", "patience": patience, "delta": delta, "monitor": mon, "repr": kind, "maxlen": L - 2, "first": first, "nan": True})
     for n in range(0, 7):
         cases.append({"mode": "epochstop", "n": n, "repr": REPRS[n % 4]})
     for i, (cond, patience, lr, delta, opt) in enumerate([
@@ -95,6 +99,10 @@ def draw_case(data, tier):
         return {"mode": "epochstop", "n": data.draw(st.integers(0, 12), label="n"), "repr": data.draw(st.sampled_from(REPRS), label="repr")}
     L = data.draw(st.integers(1, 30), label="len")
     hist = [data.draw(st.floats(min_value=0.0, max_value=8.0, allow_nan=False, width=32), label="loss") for _ in range(L)]
+    if data.draw(st.integers(0, 4), label="diverges") == 0:  # a run that diverges: NaN from some epoch on
+        a = data.draw(st.integers(0, L - 1), label="nan_from")
+        for i in range(a, L):
+            hist[i] = float("nan")
     plateau = data.draw(st.booleans(), label="plateau")
     if plateau and L > 2:
         a = data.draw(st.integers(0, L - 2), label="plateau_start")
@@ -233,22 +241,29 @@ def run_case(case):
         return result(None, n > 0, key, labels, evals=e + 1)
     if mode == "float_history":
         hist = [float(np.float32(h)) for h in case["history"]]
+        if any(h != h for h in hist):
+            pass
         labels = ["mode_float_history", "repr_" + case["repr"], "monitor_" + case["monitor"], f"patience{min(case['patience'], 4)}"]
         key = ["fh", hist, case["patience"], case["delta"], case["monitor"], case["repr"]]
         v = _drive(hist, case["patience"], case["delta"], case["monitor"], case["repr"])
         stop, _ = ref_stop_epoch(hist, case["patience"], case["delta"])
         if stop is not None:
             labels.append("reference_stops")
-        nontrivial = any(hist[i] >= min(hist[:i]) for i in range(1, len(hist)))
+        nontrivial = any(not (hist[i] < min(hist[:i])) for i in range(1, len(hist)))
+        if any(h != h for h in hist):
+            labels.append("history_with_nan")
         return result(v, nontrivial, key, labels, evals=len(hist))
     # enumerated block: all histories with the given first symbol up to maxlen
     patience, delta, mon, kind, maxlen, first = case["patience"], case["delta"], case["monitor"], case["repr"], case["maxlen"], case["first"]
     labels = ["mode_enum", "repr_" + kind, "monitor_" + mon, f"patience{patience}", f"delta{delta}"]
     key = ["enum", patience, delta, mon, kind, maxlen, first]
     count = 0
+    alphabet = ALPHABET + [float("nan")] if case.get("nan") else ALPHABET
+    if case.get("nan"):
+        labels.append("alphabet_with_nan")
     for L in range(1, maxlen + 1):
-        for tail in it.product(range(3), repeat=L - 1):
-            hist = [ALPHABET[first]] + [ALPHABET[i] for i in tail]
+        for tail in it.product(range(len(alphabet)), repeat=L - 1):
+            hist = [alphabet[first]] + [alphabet[i] for i in tail]
             count += 1
             v = _drive(hist, patience, delta, mon, kind)
             if v is not None:
